@@ -31,8 +31,10 @@ use rand::seq::SliceRandom;
 use rand::Rng;
 use serde_json::{json, Value};
 use std::collections::BTreeMap;
+#[allow(unused_imports)]
+use vm_core::utils::ByteWriter;
 use vm_core::crypto::hash::RpoDigest;
-use vm_core::utils::{ByteReader, Deserializable, DeserializationError, Serializable, SliceReader};
+use vm_core::utils::{Deserializable, DeserializationError, Serializable, SliceReader};
 use vm_core::{Felt, StackOutputs};
 
 pub fn meta() -> Meta {
@@ -60,11 +62,24 @@ pub enum Outcome {
     Bad(String, String),
 }
 
+/// `PanicInfo::site()`, with panics raised inside the standard library (e.g. `str::split_at`)
+/// named `std:<file>:<line>` instead of the toolchain's build path.
+fn site_of(p: &crate::util::PanicInfo) -> String {
+    let s = p.site();
+    if s.starts_with("/rustc/") {
+        if let Some(i) = s.find("/library/") {
+            return format!("std:{}", &s[i + 9..]);
+        }
+    }
+    s
+}
+
 fn err_class(e: &DeserializationError) -> String {
     match e {
         DeserializationError::InvalidValue(_) => "InvalidValue".into(),
         DeserializationError::UnexpectedEOF => "UnexpectedEOF".into(),
         DeserializationError::UnknownError(_) => "UnknownError".into(),
+        DeserializationError::UnconsumedBytes => "UnconsumedBytes".into(),
     }
 }
 
@@ -78,21 +93,21 @@ fn cycle<T>(
     post: impl Fn(&T) -> Option<(String, String)>,
 ) -> Outcome {
     let v = match catch(|| dec(bytes)) {
-        Err(p) => return Outcome::Bad(format!("panic/{name}/{}", p.site()), format!("decoder panicked: {} at {}", p.message, p.location)),
+        Err(p) => return Outcome::Bad(format!("panic/{name}/{}", site_of(&p)), format!("decoder panicked: {} at {}", p.message, p.location)),
         Ok(Err(e)) => return Outcome::Err(err_class(&e)),
         Ok(Ok(v)) => v,
     };
     let e1 = match catch(|| enc(&v)) {
-        Err(p) => return Outcome::Bad(format!("panic/{name}:reencode/{}", p.site()), format!("re-encoding an accepted value panicked: {} at {}", p.message, p.location)),
+        Err(p) => return Outcome::Bad(format!("panic/{name}:reencode/{}", site_of(&p)), format!("re-encoding an accepted value panicked: {} at {}", p.message, p.location)),
         Ok(b) => b,
     };
     let v2 = match catch(|| dec(&e1)) {
-        Err(p) => return Outcome::Bad(format!("panic/{name}:redecode/{}", p.site()), format!("decoding the re-encoding panicked: {} at {}", p.message, p.location)),
+        Err(p) => return Outcome::Bad(format!("panic/{name}:redecode/{}", site_of(&p)), format!("decoding the re-encoding panicked: {} at {}", p.message, p.location)),
         Ok(Err(e)) => return Outcome::Bad(format!("reject-own-encoding/{name}/{}", err_class(&e)), format!("accepted value re-encodes to bytes the decoder rejects: {e}")),
         Ok(Ok(v)) => v,
     };
     match catch(|| (enc(&v2), eq(&v, &v2))) {
-        Err(p) => return Outcome::Bad(format!("panic/{name}:reencode/{}", p.site()), p.message),
+        Err(p) => return Outcome::Bad(format!("panic/{name}:reencode/{}", site_of(&p)), p.message),
         Ok((e2, same)) => {
             if e2 != e1 {
                 return Outcome::Bad(format!("unstable-encoding/{name}"), "encode(decode(encode(v))) != encode(v)".into());
@@ -128,7 +143,7 @@ fn verify_with(
     let proof = proof.cloned().unwrap_or_else(|| f.proof.clone());
     match catch(|| miden::verify(info, si, so, proof)) {
         Ok(_) => None,
-        Err(p) => Some((format!("verify-panic/{name}/{}", p.site()), format!("verify() panicked on a decoded {name}: {} at {}", p.message, p.location))),
+        Err(p) => Some((format!("verify-panic/{name}/{}", site_of(&p)), format!("verify() panicked on a decoded {name}: {} at {}", p.message, p.location))),
     }
 }
 
@@ -191,7 +206,17 @@ pub fn prealloc_request(decoder: &str, b: &[u8]) -> u64 {
 }
 
 /// Runs one decoder on one input. `do_verify`: also pass accepted statements / proofs to verify().
+/// Signatures name the container decoder (`ProgramAst+locations` reports as `ProgramAst`: the
+/// location loader only runs after the same container code; the two proof APIs share
+/// `StarkProof`'s reader and report as `ExecutionProof`).
 pub fn run_decoder(name: &str, bytes: &[u8], do_verify: bool) -> Outcome {
+    match run_decoder_inner(name, bytes, do_verify) {
+        Outcome::Bad(sig, what) => Outcome::Bad(sig.replace("+locations", "").replace("ExecutionProof::from_bytes", "ExecutionProof").replace("ExecutionProof::read_from", "ExecutionProof"), what),
+        o => o,
+    }
+}
+
+fn run_decoder_inner(name: &str, bytes: &[u8], do_verify: bool) -> Outcome {
     let opts_of = |b: &[u8]| AstSerdeOptions::new(b.first().copied() == Some(1));
     match name {
         "ExecutionProof::from_bytes" => cycle(name, bytes, ExecutionProof::from_bytes, |p| p.to_bytes(), |a, b| a == b, |p| if do_verify { verify_with(name, None, None, None, Some(p)) } else { None }),
@@ -257,13 +282,7 @@ pub fn run_decoder(name: &str, bytes: &[u8], do_verify: bool) -> Outcome {
             let so = StackOutputs::read_from(&mut r).ok()?;
             verify_with(name, Some(&info), Some(&si), Some(&so), None)
         }),
-        "LibraryPath" => cycle(name, bytes, LibraryPath::read_from_bytes, |k| k.to_bytes(), |a, b| a == b, |p| {
-            // accessors of an accepted path must not panic either
-            match catch(|| (p.first().len(), p.last().len(), p.num_components())) {
-                Ok(_) => None,
-                Err(pi) => Some((format!("panic/{name}:accessor/{}", pi.site()), format!("first()/last() of an accepted path {:?} panicked: {}", p.path(), pi.message))),
-            }
-        }),
+        "LibraryPath" => cycle(name, bytes, LibraryPath::read_from_bytes, |k| k.to_bytes(), |a, b| a == b, no_post),
         "LibraryNamespace" => cycle(name, bytes, LibraryNamespace::read_from_bytes, |k| k.to_bytes(), |a, b| a == b, no_post),
         "Version" => cycle(name, bytes, Version::read_from_bytes, |k| k.to_bytes(), |a, b| a == b, no_post),
         "ProcedureName" => cycle(name, bytes, ProcedureName::read_from_bytes, |k| k.to_bytes(), |a, b| a == b, no_post),
@@ -276,4 +295,901 @@ pub fn run_decoder(name: &str, bytes: &[u8], do_verify: bool) -> Outcome {
         "RpoDigest" => cycle(name, bytes, RpoDigest::read_from_bytes, |k| k.to_bytes(), |a, b| a == b, no_post),
         _ => Outcome::Err("unknown-decoder".into()),
     }
+}
+
+// VALID ENCODINGS (SEEDS)
+// ================================================================================================
+
+#[derive(Clone)]
+pub struct Seed {
+    pub decoder: &'static str,
+    pub bytes: Vec<u8>,
+}
+
+fn seed(decoder: &'static str, bytes: Vec<u8>) -> Seed {
+    Seed { decoder, bytes }
+}
+
+fn rand_digest(rng: &mut Rng8) -> RpoDigest {
+    RpoDigest::new([Felt::new(biased_felt(rng)), Felt::new(biased_felt(rng)), Felt::new(biased_felt(rng)), Felt::new(biased_felt(rng))])
+}
+
+/// Valid encodings for every decoder, produced from C10's generators. `n_src` program and module
+/// sources are generated; statement / small types get a few random values each.
+pub fn valid_seeds(rng: &mut Rng8, n_src: usize, with_proofs: bool) -> Vec<Seed> {
+    // `breakpoint` is counted but not encoded (C10 finding): bodies containing it have no valid
+    // encoding, so the seed generator leaves it out
+    let mut dis = Disabled::default();
+    dis.templates.insert("breakpoint".to_string());
+    let mut out = vec![];
+    let mut module_asts = vec![];
+    for i in 0..n_src {
+        let size = [2usize, 5, 12, 30][i % 4];
+        let (src, _) = gen_program_src(rng, &dis, false, size);
+        if let Ok(Ok(ast)) = catch(|| ProgramAst::parse(&src)) {
+            for imports in [true, false] {
+                if let Ok(b) = catch(|| ast.to_bytes(AstSerdeOptions::new(imports))) {
+                    // sources with `breakpoint` have no valid encoding (C10 finding): keep only
+                    // encodings the decoder accepts
+                    if !matches!(run_decoder("ProgramAst", &b, false), Outcome::Ok(_)) {
+                        continue;
+                    }
+                    let mut bl = b.clone();
+                    ast.write_source_locations(&mut bl);
+                    out.push(seed("ProgramAst", b));
+                    out.push(seed("ProgramAst+locations", bl));
+                }
+            }
+            for p in ast.procedures().iter().take(2) {
+                out.push(seed("ProcedureAst", p.to_bytes()));
+                for n in p.body.nodes().iter().take(3) {
+                    let b = n.to_bytes();
+                    if !b.is_empty() {
+                        if matches!(n, Node::Instruction(_)) {
+                            out.push(seed("Instruction", b.clone()));
+                        }
+                        out.push(seed("Node", b));
+                    }
+                }
+            }
+            for n in ast.body().nodes().iter().take(4) {
+                let b = n.to_bytes();
+                if !b.is_empty() {
+                    out.push(seed("Node", b));
+                }
+            }
+            out.push(seed("ModuleImports", ast.import_info().to_bytes()));
+        }
+        let (msrc, no_compile) = gen_module_src(rng, &dis, false, size);
+        if let Ok(Ok(ast)) = catch(|| ModuleAst::parse(&msrc)) {
+            let mut ok = true;
+            for imports in [true, false] {
+                if let Ok(b) = catch(|| ast.to_bytes(AstSerdeOptions::new(imports))) {
+                    if !matches!(run_decoder("ModuleAst", &b, false), Outcome::Ok(_)) {
+                        ok = false;
+                        continue;
+                    }
+                    let mut bl = b.clone();
+                    ast.write_source_locations(&mut bl);
+                    out.push(seed("ModuleAst", b));
+                    out.push(seed("ModuleAst+locations", bl));
+                }
+            }
+            for r in ast.reexported_procs().iter().take(2) {
+                out.push(seed("ProcReExport", r.to_bytes()));
+            }
+            out.push(seed("ModuleImports", ast.import_info().to_bytes()));
+            if ok && !no_compile {
+                module_asts.push(ast);
+            }
+        }
+    }
+    // libraries: the fixed one and libraries around generated modules
+    for with_locs in [false, true] {
+        let lib = c10::vlib();
+        let lib = MaslLibrary::new(lib.root_ns().clone(), Version { major: 0, minor: 1, patch: 0 }, with_locs, lib.modules().cloned().collect(), vec![]).expect("lib");
+        out.push(seed("MaslLibrary", lib.to_bytes()));
+    }
+    for (i, ast) in module_asts.into_iter().enumerate().take(6) {
+        if let Ok(lib) = c10::module_library(ast, i % 2 == 0) {
+            if let Ok(b) = catch(|| lib.to_bytes()) {
+                if matches!(run_decoder("MaslLibrary", &b, false), Outcome::Ok(_)) {
+                    out.push(seed("MaslLibrary", b));
+                }
+            }
+        }
+    }
+    // statements
+    for _ in 0..6 {
+        let k = rand_kernel(rng);
+        out.push(seed("Kernel", k.to_bytes()));
+        let info = ProgramInfo::new(rand_digest(rng), rand_kernel(rng));
+        out.push(seed("ProgramInfo", info.to_bytes()));
+        let si = rand_stack_inputs(rng);
+        out.push(seed("StackInputs", si.to_bytes()));
+        let so = rand_stack_outputs(rng);
+        out.push(seed("StackOutputs", so.to_bytes()));
+        out.push(seed("PublicInputs", air::PublicInputs::new(info, si, so).to_bytes()));
+        out.push(seed("RpoDigest", rand_digest(rng).to_bytes()));
+    }
+    // small assembler types
+    for path in ["a", "std::math::u64", "vlib::beta::gamma", "x_1::Y2::z", "#exec::main", "#sys::k0"] {
+        if let Ok(Ok(p)) = catch(|| LibraryPath::new(path)) {
+            out.push(seed("LibraryPath", p.to_bytes()));
+            if let Ok(n) = ProcedureName::try_from("some_proc".to_string()) {
+                out.push(seed("ProcedureId", ProcedureId::from_name(&n, &p).to_bytes()));
+            }
+        }
+    }
+    for name in ["a", "main", "checked_add", "P9_x", "#main"] {
+        if let Ok(n) = ProcedureName::try_from(name.to_string()) {
+            out.push(seed("ProcedureName", n.to_bytes()));
+        }
+        if let Ok(n) = LibraryNamespace::new(name) {
+            out.push(seed("LibraryNamespace", n.to_bytes()));
+        }
+    }
+    out.push(seed("Version", Version { major: rng.gen(), minor: rng.gen(), patch: rng.gen() }.to_bytes()));
+    if with_proofs {
+        for f in proofs() {
+            out.push(seed("ExecutionProof::from_bytes", f.bytes.clone()));
+            out.push(seed("ExecutionProof::read_from", Serializable::to_bytes(&f.proof)));
+            out.push(seed("ProgramInfo", f.info.to_bytes()));
+            out.push(seed("StackInputs", f.inputs.to_bytes()));
+            out.push(seed("StackOutputs", f.outputs.to_bytes()));
+            out.push(seed("PublicInputs", air::PublicInputs::new(f.info.clone(), f.inputs.clone(), f.outputs.clone()).to_bytes()));
+        }
+    }
+    out
+}
+
+use assembly::Library;
+
+// MUTATIONS
+// ================================================================================================
+
+pub const MUTATIONS: [&str; 14] = [
+    "bitflip", "byte-random", "byte-interesting", "truncate", "len-field-0", "len-field-1", "len-field-max", "len-field-huge", "opcode-swap", "append-garbage", "insert", "delete", "splice", "dup-chunk",
+];
+
+/// Offsets that look like little-endian u16 counts / lengths (non-zero and not larger than what follows).
+fn len_field_candidates(b: &[u8]) -> Vec<usize> {
+    let mut v = vec![];
+    for o in 0..b.len().saturating_sub(1) {
+        let x = u16::from_le_bytes([b[o], b[o + 1]]) as usize;
+        if x != 0 && x <= b.len() - o {
+            v.push(o);
+        }
+    }
+    v
+}
+
+fn write_le(b: &mut [u8], o: usize, width: usize, v: u64) {
+    for i in 0..width {
+        if o + i < b.len() {
+            b[o + i] = (v >> (8 * i)) as u8;
+        }
+    }
+}
+
+/// Known positions of count fields for the fixed-layout decoders: (offset, width).
+fn known_len_fields(decoder: &str, b: &[u8]) -> Vec<(usize, usize)> {
+    let u32_at = |o: usize| b.get(o..o + 4).map(|s| u32::from_le_bytes([s[0], s[1], s[2], s[3]]) as usize);
+    match decoder {
+        "StackInputs" => vec![(0, 4)],
+        "StackOutputs" => {
+            let mut v = vec![(0, 4)];
+            if let Some(c) = u32_at(0) {
+                v.push((4 + 8 * c, 4));
+            }
+            v
+        }
+        "Kernel" => vec![(0, 2)],
+        "ProgramInfo" => vec![(32, 2)],
+        "PublicInputs" => {
+            let mut v = vec![(32, 2)];
+            if let Some(k) = b.get(32..34).map(|s| u16::from_le_bytes([s[0], s[1]]) as usize) {
+                let o = 34 + 32 * k;
+                v.push((o, 4));
+                if let Some(c) = u32_at(o) {
+                    v.push((o + 4 + 8 * c, 4));
+                }
+            }
+            v
+        }
+        "LibraryPath" => vec![(0, 2)],
+        "ProcedureName" | "LibraryNamespace" | "MaslLibrary" => vec![(0, 1)],
+        _ => vec![],
+    }
+}
+
+pub fn mutate(kind: &str, decoder: &str, seed: &[u8], other: &[u8], rng: &mut Rng8) -> Vec<u8> {
+    let mut b = seed.to_vec();
+    if b.is_empty() {
+        return vec![rng.gen()];
+    }
+    let n = b.len();
+    match kind {
+        "bitflip" => {
+            for _ in 0..rng.gen_range(1..4) {
+                let i = rng.gen_range(0..n);
+                b[i] ^= 1 << rng.gen_range(0..8);
+            }
+        }
+        "byte-random" => {
+            for _ in 0..rng.gen_range(1..4) {
+                let i = rng.gen_range(0..n);
+                b[i] = rng.gen();
+            }
+        }
+        "byte-interesting" => {
+            let i = rng.gen_range(0..n);
+            b[i] = *[0u8, 1, 2, 0x7f, 0x80, 0xfe, 0xff, 253, 254, 206, 226, b'#', b':'].choose(rng).unwrap();
+        }
+        "truncate" => {
+            b.truncate(rng.gen_range(0..n));
+        }
+        "len-field-0" | "len-field-1" | "len-field-max" | "len-field-huge" => {
+            let known = known_len_fields(decoder, &b);
+            let (o, w) = if !known.is_empty() && rng.gen_bool(0.7) {
+                *known.choose(rng).unwrap()
+            } else {
+                let c = len_field_candidates(&b);
+                let o = if !c.is_empty() && rng.gen_bool(0.8) { *c.choose(rng).unwrap() } else { rng.gen_range(0..n) };
+                (o, [1usize, 2, 2, 2, 4][rng.gen_range(0..5)])
+            };
+            let max = if w == 8 { u64::MAX } else { (1u64 << (8 * w)) - 1 };
+            let v = match kind {
+                "len-field-0" => 0,
+                "len-field-1" => 1,
+                "len-field-max" => max,
+                // "huge": for u32 counts of 8-byte elements 2^25 is exactly the pre-allocation cap
+                // (decoded), u32::MAX and 2^31 exceed it (tallied, not decoded)
+                _ => match w {
+                    4 => *[1u64 << 25, (1 << 25) - 1, 1 << 31, u32::MAX as u64, 0x0100_0000, 65536].choose(rng).unwrap(),
+                    2 => *[0x8000u64, 0xfffe, 0x7fff, 0x0100].choose(rng).unwrap(),
+                    _ => *[0x80u64, 0xfe, 0x7f].choose(rng).unwrap(),
+                },
+            };
+            write_le(&mut b, o, w, v);
+        }
+        "opcode-swap" => {
+            // overwrite a byte with a valid serde opcode (or put a control-flow opcode there)
+            let ops = c10::valid_opcodes();
+            let i = rng.gen_range(0..n);
+            b[i] = if rng.gen_bool(0.3) { [253u8, 254, 255][rng.gen_range(0..3)] } else { *ops.choose(rng).unwrap() };
+        }
+        "append-garbage" => {
+            for _ in 0..rng.gen_range(1..40) {
+                b.push(rng.gen());
+            }
+        }
+        "insert" => {
+            let i = rng.gen_range(0..=n);
+            let k = rng.gen_range(1..9);
+            let ins: Vec<u8> = (0..k).map(|_| rng.gen()).collect();
+            b.splice(i..i, ins);
+        }
+        "delete" => {
+            let i = rng.gen_range(0..n);
+            let k = rng.gen_range(1..9).min(n - i);
+            b.drain(i..i + k);
+        }
+        "splice" => {
+            // head of this encoding, tail of another encoding of the same decoder
+            let i = rng.gen_range(0..=n);
+            let j = if other.is_empty() { 0 } else { rng.gen_range(0..=other.len()) };
+            b.truncate(i);
+            b.extend_from_slice(&other[j..]);
+        }
+        _ => {
+            // dup-chunk: repeat a slice in place
+            let i = rng.gen_range(0..n);
+            let k = rng.gen_range(1..17).min(n - i);
+            let chunk = b[i..i + k].to_vec();
+            b.splice(i..i, chunk);
+        }
+    }
+    b
+}
+
+// CRAFTED INPUTS (DETERMINISTIC SHAPE ENUMERATION)
+// ================================================================================================
+
+/// Shapes a mutation would only hit by luck: statement containers with every combination of
+/// element counts and boundary values, and label strings around the special `#` prefixes.
+pub fn crafted_inputs() -> Vec<(&'static str, Vec<u8>)> {
+    let mut out: Vec<(&'static str, Vec<u8>)> = vec![];
+    let vals = [0u64, 7, P - 1, P, u64::MAX];
+    let list = |n: usize, v: u64| -> Vec<u8> {
+        let mut b = (n as u32).to_le_bytes().to_vec();
+        for i in 0..n {
+            b.extend_from_slice(&(if i == n / 2 { v } else { 1 }).to_le_bytes());
+        }
+        b
+    };
+    for n in [0usize, 1, 15, 16, 17, 40] {
+        for v in vals {
+            out.push(("StackInputs", list(n, v)));
+            let mut ovs = vec![0usize, 1, 2];
+            if n > 16 {
+                ovs.extend([n - 16, n + 1 - 16, n + 2 - 16]);
+            }
+            for m in ovs {
+                let mut b = list(n, v);
+                b.extend(list(m, v));
+                out.push(("StackOutputs", b.clone()));
+                let mut pi = vec![1u8; 32];
+                pi.extend_from_slice(&[0, 0]);
+                pi.extend(list(n.min(17), 1));
+                pi.extend(b);
+                out.push(("PublicInputs", pi));
+            }
+        }
+    }
+    for n in [0usize, 1, 2, 3, 255, 256, 1000] {
+        for dup in [false, true] {
+            let mut k = (n as u16).to_le_bytes().to_vec();
+            for i in 0..n {
+                let x = if dup { 5u64 } else { 5 + i as u64 };
+                for _ in 0..4 {
+                    k.extend_from_slice(&x.to_le_bytes());
+                }
+            }
+            out.push(("Kernel", k.clone()));
+            let mut info = vec![2u8; 32];
+            info.extend(k);
+            out.push(("ProgramInfo", info));
+        }
+    }
+    let labels = [
+        "", "a", "a::b", "#sys", "#exec", "#anon", "#sy", "#sysx", "#execx", "#sys:", "#sys::", "#sys::a", "#exec::", "#exec::a::b", "#sys\u{e9}", "#exec\u{e9}\u{e9}", "::", "a::", "::a", "a:::b", "1a", "a-b", "\u{e9}", "a::\u{e9}",
+        "#main", "#", "##", "A", "_a", "a b",
+    ];
+    for l in labels {
+        let mut p = (l.len() as u16).to_le_bytes().to_vec();
+        p.extend_from_slice(l.as_bytes());
+        out.push(("LibraryPath", p.clone()));
+        let mut n = vec![l.len() as u8];
+        n.extend_from_slice(l.as_bytes());
+        out.push(("ProcedureName", n.clone()));
+        out.push(("LibraryNamespace", n.clone()));
+        // a module-imports table with this single path, used / unused
+        let mut mi = vec![1u8, 0];
+        mi.extend_from_slice(&p);
+        mi.extend_from_slice(&[0, 0]);
+        out.push(("ModuleImports", mi.clone()));
+        let mut prog = vec![1u8];
+        prog.extend_from_slice(&mi);
+        prog.extend_from_slice(&[0, 0, 1, 0, 8]);
+        out.push(("ProgramAst", prog));
+        let mut module = vec![1u8, 0, 0];
+        module.extend_from_slice(&mi);
+        module.extend_from_slice(&[0, 0, 0, 0]);
+        out.push(("ModuleAst", module));
+        // library: namespace `a`, version, no deps, one module with this path
+        let mut lib = vec![1u8, b'a', 0, 0, 0, 0, 0, 0, 0, 0, 1, 0];
+        lib.extend_from_slice(&p);
+        lib.extend_from_slice(&[0, 0, 0, 0, 0, 0, 0, 0, 0, 0, 0]);
+        out.push(("MaslLibrary", lib));
+    }
+    for b in 0..=255u8 {
+        out.push(("Instruction", vec![b]));
+        out.push(("Node", vec![b]));
+        out.push(("Instruction", vec![b, 1, 1, 1, 1, 1, 1, 1, 1, 1, 1, 1, 1, 1, 1, 1, 1, 1, 1, 1, 1, 1, 1, 1, 1, 1, 1, 1, 1, 1, 1, 1, 1]));
+        out.push(("Node", vec![b, 1, 0, 8, 1, 0, 8, 1, 0, 8]));
+    }
+    out
+}
+
+/// Every value of every one of the first `n` bytes of a valid encoding.
+pub fn byte_enumeration(decoder: &str, seed: &[u8], n: usize, budget: &mut Budget, rep: &mut Report) {
+    let mut b = seed.to_vec();
+    for i in 0..n.min(seed.len()) {
+        for v in 0..=255u8 {
+            if v == seed[i] {
+                continue;
+            }
+            b[i] = v;
+            evaluate(decoder, "byte-enum", &b, budget, rep);
+        }
+        b[i] = seed[i];
+    }
+}
+
+// ONE EVALUATION
+// ================================================================================================
+
+/// Budget of verify() calls per shard (verify costs milliseconds, decoding microseconds).
+pub struct Budget {
+    pub per_decoder: usize,
+    pub used: BTreeMap<String, usize>,
+}
+
+impl Budget {
+    pub fn new(per_decoder: usize) -> Self {
+        Budget { per_decoder, used: BTreeMap::new() }
+    }
+    fn left(&self, d: &str) -> bool {
+        self.used.get(d).copied().unwrap_or(0) < self.per_decoder
+    }
+    fn spend(&mut self, d: &str) {
+        *self.used.entry(d.to_string()).or_default() += 1;
+    }
+}
+
+fn witness(decoder: &str, kind: &str, bytes: &[u8]) -> Value {
+    json!({"kind": "bytes", "decoder": decoder, "mutation": kind, "len": bytes.len(), "hex": hex(bytes)})
+}
+
+/// Greedy minimisation of a violating input (same signature), bounded effort.
+pub fn minimise(decoder: &str, bytes: &[u8], sig: &str, do_verify: bool) -> Vec<u8> {
+    let mut cur = bytes.to_vec();
+    let mut calls = 0;
+    let same = |b: &[u8], calls: &mut usize| -> bool {
+        *calls += 1;
+        if prealloc_request(decoder, b) > PREALLOC_CAP {
+            return false;
+        }
+        matches!(run_decoder(decoder, b, do_verify), Outcome::Bad(s, _) if s == sig)
+    };
+    // shortest failing prefix
+    let (mut lo, mut hi) = (0usize, cur.len());
+    while lo < hi && calls < 200 {
+        let mid = (lo + hi) / 2;
+        if same(&cur[..mid], &mut calls) {
+            hi = mid;
+        } else {
+            lo = mid + 1;
+        }
+    }
+    if hi < cur.len() && same(&cur[..hi], &mut calls) {
+        cur.truncate(hi);
+    }
+    // remove chunks
+    let mut chunk = (cur.len() / 2).max(1);
+    while chunk >= 1 && calls < 3000 {
+        let mut i = 0;
+        while i + chunk <= cur.len() && calls < 3000 {
+            let mut t = cur.clone();
+            t.drain(i..i + chunk);
+            if same(&t, &mut calls) {
+                cur = t;
+            } else {
+                i += chunk;
+            }
+        }
+        if chunk == 1 {
+            break;
+        }
+        chunk /= 2;
+    }
+    // normalise bytes to zero where possible (makes witnesses comparable across seeds)
+    for i in 0..cur.len().min(256) {
+        if cur[i] != 0 && calls < 4000 {
+            let mut t = cur.clone();
+            t[i] = 0;
+            if same(&t, &mut calls) {
+                cur = t;
+            }
+        }
+    }
+    cur
+}
+
+pub fn evaluate(decoder: &str, kind: &str, bytes: &[u8], budget: &mut Budget, rep: &mut Report) -> &'static str {
+    let req = prealloc_request(decoder, bytes);
+    if req > PREALLOC_CAP {
+        rep.count("resource/huge-prealloc", &format!("{decoder}|{kind}"));
+        if rep.notes.get("resource/huge-prealloc").is_none() {
+            rep.note("resource/huge-prealloc", json!({"remark": "not a violation: read_many(count) pre-allocates count elements before reading; inputs like this one were not decoded in-process", "decoder": decoder, "requested_bytes": req, "input_hex": hex(&bytes[..bytes.len().min(64)])}));
+        }
+        return "skipped";
+    }
+    // verify() only for the statement / proof decoders and while the budget lasts
+    let verify_decoder = matches!(decoder, "Kernel" | "ProgramInfo" | "StackInputs" | "StackOutputs" | "PublicInputs" | "ExecutionProof::from_bytes");
+    let do_verify = verify_decoder && (kind == "crafted" || budget.left(decoder));
+    let out = run_decoder(decoder, bytes, do_verify);
+    let class: String = match &out {
+        Outcome::Err(c) => format!("err:{c}"),
+        Outcome::Ok(_) => {
+            if do_verify {
+                budget.spend(decoder);
+                rep.count("verify_on_decoded", decoder);
+            }
+            "ok".into()
+        }
+        Outcome::Bad(sig, _) => sig.split('/').next().unwrap_or("bad").to_string(),
+    };
+    rep.eval(&format!("{decoder}|{kind}|{}", if let Outcome::Bad(s, _) = &out { s.as_str() } else { class.as_str() }));
+    rep.count("outcome", &format!("{decoder}|{class}"));
+    rep.count("mutation", &format!("{kind}|{}", class.split(':').next().unwrap_or("")));
+    rep.count("decoder_x_mutation", &format!("{decoder}|{kind}|{}", class.split(':').next().unwrap_or("")));
+    match out {
+        Outcome::Ok(_) => "ok",
+        Outcome::Err(_) => "err",
+        Outcome::Bad(sig, what) => {
+            rep.count("deviation", &sig);
+            // minimise the first few witnesses of every signature
+            let n = rep.violation_counts.get(&sig).copied().unwrap_or(0);
+            let w = if n < 3 { minimise(decoder, bytes, &sig, do_verify) } else { bytes.to_vec() };
+            if n < 3 || w.len() < 64 {
+                rep.violation(sig, format!("{what} :: input ({} bytes, mutation {kind}): {}", w.len(), truncate(&hex(&w), 160)), witness(decoder, kind, &w));
+            } else {
+                *rep.violation_counts.entry(sig).or_default() += 1;
+            }
+            "bad"
+        }
+    }
+}
+
+// CONSTRUCTORS TAKING INTEGERS
+// ================================================================================================
+
+pub fn constructor_checks(rep: &mut Report) {
+    let grid: [(u64, bool); 4] = [(P - 1, true), (P, false), (P + 1, false), (u64::MAX, false)];
+    for n in [1usize, 2, 16, 17, 40] {
+        for pos in 0..n {
+            for (v, ok) in grid {
+                let mut vals = vec![3u64; n];
+                vals[pos] = v;
+                let wit = |c: &str| json!({"kind": "constructor", "constructor": c, "n": n, "pos": pos, "value": v.to_string()});
+                // StackInputs::try_from_values
+                rep.eval(&format!("ctor|StackInputs::try_from_values|{}", if ok { "canonical" } else { "non-canonical" }));
+                rep.count("constructor", "StackInputs::try_from_values");
+                match catch(|| StackInputs::try_from_values(vals.clone())) {
+                    Ok(r) => {
+                        if r.is_ok() != ok {
+                            rep.violation(format!("constructor/StackInputs::try_from_values/{}", if ok { "rejects-canonical" } else { "accepts-non-canonical" }), format!("value {v} at position {pos} of {n}: is_ok={}", r.is_ok()), wit("StackInputs::try_from_values"));
+                        }
+                    }
+                    Err(p) => rep.violation(format!("constructor/StackInputs::try_from_values/panic/{}", site_of(&p)), p.message, wit("StackInputs::try_from_values")),
+                }
+                // AdviceInputs::with_stack_values
+                rep.eval(&format!("ctor|AdviceInputs::with_stack_values|{}", if ok { "canonical" } else { "non-canonical" }));
+                rep.count("constructor", "AdviceInputs::with_stack_values");
+                match catch(|| AdviceInputs::default().with_stack_values(vals.clone()).map(|a| a.stack().len())) {
+                    Ok(r) => {
+                        if r.is_ok() != ok {
+                            rep.violation(format!("constructor/AdviceInputs::with_stack_values/{}", if ok { "rejects-canonical" } else { "accepts-non-canonical" }), format!("value {v} at position {pos} of {n}: is_ok={}", r.is_ok()), wit("AdviceInputs::with_stack_values"));
+                        }
+                    }
+                    Err(p) => rep.violation(format!("constructor/AdviceInputs::with_stack_values/panic/{}", site_of(&p)), p.message, wit("AdviceInputs::with_stack_values")),
+                }
+                // StackOutputs::new: value in the stack part
+                let ov = if n > 16 { vec![5u64; n + 1 - 16] } else { vec![] };
+                rep.eval(&format!("ctor|StackOutputs::new/stack|{}", if ok { "canonical" } else { "non-canonical" }));
+                rep.count("constructor", "StackOutputs::new");
+                match catch(|| StackOutputs::new(vals.clone(), ov.clone())) {
+                    Ok(r) => {
+                        if r.is_ok() != ok {
+                            rep.violation(format!("constructor/StackOutputs::new/stack/{}", if ok { "rejects-canonical" } else { "accepts-non-canonical" }), format!("value {v} at stack position {pos} of {n}: is_ok={}", r.is_ok()), wit("StackOutputs::new/stack"));
+                        }
+                    }
+                    Err(p) => rep.violation(format!("constructor/StackOutputs::new/panic/{}", site_of(&p)), p.message, wit("StackOutputs::new/stack")),
+                }
+                // ... and in the overflow-address part
+                if pos < ov.len() {
+                    let mut o2 = ov.clone();
+                    o2[pos] = v;
+                    match catch(|| StackOutputs::new(vec![3u64; n], o2.clone())) {
+                        Ok(r) => {
+                            if r.is_ok() != ok {
+                                rep.violation(format!("constructor/StackOutputs::new/overflow-addrs/{}", if ok { "rejects-canonical" } else { "accepts-non-canonical" }), format!("value {v} at overflow position {pos}: is_ok={}", r.is_ok()), wit("StackOutputs::new/overflow"));
+                            }
+                        }
+                        Err(p) => rep.violation(format!("constructor/StackOutputs::new/panic/{}", site_of(&p)), p.message, wit("StackOutputs::new/overflow")),
+                    }
+                }
+            }
+        }
+    }
+}
+
+// RECURSION DEPTH (CHILD PROCESS: A STACK OVERFLOW ABORTS AND CANNOT BE CAUGHT)
+// ================================================================================================
+
+/// A VALID ProgramAst encoding (no imports, no procedures) whose body is `depth` nested
+/// `while.true` blocks around one `add`: 5 + 3*depth + 1 bytes.
+pub fn nested_program_bytes(depth: usize) -> Vec<u8> {
+    let mut b = vec![0u8, 0, 0, 1, 0];
+    for _ in 0..depth {
+        b.extend_from_slice(&[255, 1, 0]);
+    }
+    b.push(8);
+    b
+}
+
+pub const CHILD_ENV: &str = "VERIF_C19_CHILD";
+const CHILD_STACK: usize = 8 << 20;
+
+/// Child mode: decode on a thread with the default main-thread stack size (8 MiB) and exit.
+fn child_main(spec: &str) -> ! {
+    let depth: usize = spec.strip_prefix("nest:").and_then(|d| d.parse().ok()).unwrap_or(1);
+    let bytes = nested_program_bytes(depth);
+    let h = std::thread::Builder::new()
+        .stack_size(CHILD_STACK)
+        .spawn(move || {
+            let r = ProgramAst::from_bytes(&bytes);
+            let ok = r.is_ok();
+            // dropping a deeply nested AST recurses as well; leak it so only decoding is measured
+            std::mem::forget(r);
+            ok
+        })
+        .expect("spawn");
+    let ok = h.join().unwrap_or(false);
+    println!("child decoded depth={depth} ok={ok}");
+    std::process::exit(if ok { 0 } else { 3 });
+}
+
+/// Some(true) = child died from a signal (stack overflow), Some(false) = returned, None = could not run.
+fn child_crashes(depth: usize) -> Option<bool> {
+    let exe = std::env::current_exe().ok()?;
+    let out = std::process::Command::new(exe).args(["check", "C19", "quick"]).env(CHILD_ENV, format!("nest:{depth}")).output().ok()?;
+    use std::os::unix::process::ExitStatusExt;
+    Some(out.status.signal().is_some())
+}
+
+pub fn recursion_probe(rep: &mut Report) {
+    // largest input considered: 1 MiB
+    let max_depth = (1usize << 20) / 3;
+    rep.eval("recursion|ProgramAst|nested-while");
+    match child_crashes(max_depth) {
+        None => rep.inconclusive("recursion-probe-child-could-not-run"),
+        Some(false) => {
+            rep.count("recursion_probe", "1MiB-input-decodes-on-8MiB-stack");
+        }
+        Some(true) => {
+            // bisect the smallest crashing depth
+            let (mut lo, mut hi) = (1usize, max_depth);
+            while lo < hi {
+                let mid = (lo + hi) / 2;
+                match child_crashes(mid) {
+                    Some(true) => hi = mid,
+                    Some(false) => lo = mid + 1,
+                    None => break,
+                }
+                rep.eval("recursion|ProgramAst|bisect");
+            }
+            rep.count("recursion_probe", "stack-overflow");
+            rep.violation(
+                "abort/ProgramAst/stack-overflow-nested-body",
+                format!("Node::read_from recurses once per nested body without a depth limit: a VALID {}-byte ProgramAst encoding ({} nested while.true blocks: 00 0000 0100 (ff 0100)x{} 08) overflows an 8 MiB stack inside ProgramAst::from_bytes (process killed by a signal; about {} bytes of stack per level)", 6 + 3 * hi, hi, hi, CHILD_STACK / hi.max(1)),
+                json!({"kind": "nest", "depth": hi, "input_len": 6 + 3 * hi}),
+            );
+        }
+    }
+}
+
+// RUN
+// ================================================================================================
+
+fn export_corpus(seeds: &[Seed]) {
+    let root = crate::report::verif_root().join("fuzz").join("corpus");
+    for s in seeds {
+        let (target, selector): (&str, Option<u8>) = match s.decoder {
+            "ExecutionProof::from_bytes" => ("proof", Some(0)),
+            "ExecutionProof::read_from" => ("proof", Some(1)),
+            "ProgramAst" | "ProgramAst+locations" => ("program_ast", None),
+            "ModuleAst" | "ModuleAst+locations" => ("module_ast", None),
+            "MaslLibrary" => ("library", None),
+            "Kernel" => ("statement", Some(0)),
+            "ProgramInfo" => ("statement", Some(1)),
+            "StackInputs" => ("statement", Some(2)),
+            "StackOutputs" => ("statement", Some(3)),
+            "PublicInputs" => ("statement", Some(4)),
+            "LibraryPath" => ("small", Some(0)),
+            "LibraryNamespace" => ("small", Some(1)),
+            "Version" => ("small", Some(2)),
+            "ProcedureName" => ("small", Some(3)),
+            "ProcedureId" => ("small", Some(4)),
+            "ModuleImports" => ("small", Some(5)),
+            "ProcedureAst" => ("small", Some(6)),
+            "ProcReExport" => ("small", Some(7)),
+            "Node" => ("small", Some(8)),
+            "Instruction" => ("small", Some(9)),
+            "RpoDigest" => ("small", Some(10)),
+            _ => continue,
+        };
+        let dir = root.join(target);
+        let _ = std::fs::create_dir_all(&dir);
+        let mut bytes = vec![];
+        if let Some(sel) = selector {
+            bytes.push(sel);
+        }
+        bytes.extend_from_slice(&s.bytes);
+        let mut h: u64 = 0xcbf29ce484222325;
+        for b in &bytes {
+            h ^= *b as u64;
+            h = h.wrapping_mul(0x100000001b3);
+        }
+        let _ = std::fs::write(dir.join(format!("seed-{h:016x}")), bytes);
+    }
+}
+
+pub fn run(cfg: &Cfg) -> Report {
+    if let Ok(spec) = std::env::var(CHILD_ENV) {
+        child_main(&spec);
+    }
+    // corpus export for the fuzz lane (lanes/C19.sh): writes valid encodings and stops
+    if std::env::var("VERIF_EXPORT_CORPUS").map(|v| v == "1").unwrap_or(false) {
+        let mut rng = rng_for(cfg.seed, "C19-corpus", 0);
+        let seeds = valid_seeds(&mut rng, 60, true);
+        export_corpus(&seeds);
+        let mut rep = Report::new();
+        rep.note("corpus_exported", json!(seeds.len()));
+        rep.inconclusive("corpus-export-only-run");
+        return rep;
+    }
+    let mut rep0 = Report::new();
+    let t0 = std::time::Instant::now();
+    constructor_checks(&mut rep0);
+    let t_ctor = t0.elapsed().as_secs_f64();
+    recursion_probe(&mut rep0);
+    let t_rec = t0.elapsed().as_secs_f64() - t_ctor;
+    // make sure the proofs exist before the shards ask for them
+    rep0.floor(proofs().len() >= 4, "at-least-4-real-proofs");
+    let shards = 64;
+    let n_src = cfg.n(6, 40);
+    let per_seed = cfg.n(80, 800);
+    let n_random = cfg.n(8000, 80000);
+    let reports = par_map(shards, |sh| {
+        let mut rng = rng_for(cfg.seed, "C19", sh as u64);
+        let mut rep = Report::new();
+        let mut budget = Budget::new(cfg.n(40, 400));
+        // proofs are 30-50 kB each: mutate them in a quarter of the shards only
+        let seeds = valid_seeds(&mut rng, n_src, sh % 4 == 0);
+        let mut by_dec: BTreeMap<&str, Vec<usize>> = BTreeMap::new();
+        for (i, s) in seeds.iter().enumerate() {
+            by_dec.entry(s.decoder).or_default().push(i);
+        }
+        for s in &seeds {
+            rep.count("valid_seeds", s.decoder);
+            // (0) the valid encoding itself must be accepted
+            if evaluate(s.decoder, "none", &s.bytes, &mut budget, &mut rep) == "err" {
+                rep.inconclusive(format!("valid-seed-rejected:{}", s.decoder));
+            }
+            // (1) every truncation of small inputs, 24 random ones of large inputs
+            if s.bytes.len() <= 300 {
+                for cut in 0..s.bytes.len() {
+                    evaluate(s.decoder, "truncate-every-offset", &s.bytes[..cut], &mut budget, &mut rep);
+                }
+            } else {
+                for _ in 0..24 {
+                    let cut = rng.gen_range(0..s.bytes.len());
+                    evaluate(s.decoder, "truncate", &s.bytes[..cut], &mut budget, &mut rep);
+                }
+            }
+            // (2) seeded mutations; big inputs (proofs) get fewer
+            let n_mut = if s.bytes.len() > 8192 { per_seed / 2 } else { per_seed };
+            for k in 0..n_mut {
+                let kind = MUTATIONS[(k + sh) % MUTATIONS.len()];
+                let other = by_dec.get(s.decoder).and_then(|v| v.choose(&mut rng)).map(|i| seeds[*i].bytes.as_slice()).unwrap_or(&[]);
+                let mut m = mutate(kind, s.decoder, &s.bytes, other, &mut rng);
+                // stacked mutations now and then
+                if rng.gen_bool(0.15) {
+                    let k2 = MUTATIONS[rng.gen_range(0..MUTATIONS.len())];
+                    m = mutate(k2, s.decoder, &m, other, &mut rng);
+                }
+                evaluate(s.decoder, kind, &m, &mut budget, &mut rep);
+            }
+            // (3) the same bytes fed to a *different* decoder (type confusion)
+            let other_dec = DECODERS[rng.gen_range(0..DECODERS.len())];
+            evaluate(other_dec, "cross-decoder", &s.bytes, &mut budget, &mut rep);
+        }
+        // (3b) deterministic enumerations, spread over the first shards
+        if sh == 0 {
+            for (d, b) in crafted_inputs() {
+                evaluate(d, "crafted", &b, &mut budget, &mut rep);
+            }
+        }
+        if (1..=10).contains(&sh) {
+            // headers of real proofs (context, options, commitments count ...): all single-byte edits
+            let fx = proofs();
+            let f = &fx[(sh - 1) % fx.len()];
+            if sh <= 5 {
+                byte_enumeration("ExecutionProof::from_bytes", &f.bytes, 72, &mut budget, &mut rep);
+            } else {
+                byte_enumeration("ExecutionProof::read_from", &Serializable::to_bytes(&f.proof), 72, &mut budget, &mut rep);
+            }
+        }
+        if sh % 8 == 3 {
+            for s in seeds.iter().filter(|s| s.bytes.len() <= 48).take(40) {
+                byte_enumeration(s.decoder, &s.bytes, 48, &mut budget, &mut rep);
+            }
+        }
+        // (4) random byte strings
+        for i in 0..n_random {
+            let dec = DECODERS[(i + sh) % DECODERS.len()];
+            let len = match rng.gen_range(0..10) {
+                0 => rng.gen_range(0..4),
+                1..=5 => rng.gen_range(4..40),
+                6..=8 => rng.gen_range(40..300),
+                _ => rng.gen_range(300..3000),
+            };
+            let style = rng.gen_range(0..4);
+            let bytes: Vec<u8> = (0..len)
+                .map(|_| match style {
+                    0 => rng.gen(),
+                    1 => rng.gen_range(0..4),
+                    2 => *[0u8, 1, 255, 254, 253, 8, 206, 226].choose(&mut rng).unwrap(),
+                    _ => {
+                        if rng.gen_bool(0.7) {
+                            rng.gen_range(0..3)
+                        } else {
+                            rng.gen()
+                        }
+                    }
+                })
+                .collect();
+            evaluate(dec, "random-bytes", &bytes, &mut budget, &mut rep);
+        }
+        if sh == 0 {
+            for s in seeds.iter().take(4) {
+                rep.sample(json!({"decoder": s.decoder, "valid_encoding_len": s.bytes.len(), "hex_prefix": hex(&s.bytes[..s.bytes.len().min(48)])}));
+            }
+        }
+        rep
+    });
+    let mut rep = merge_all(reports);
+    rep.merge(rep0);
+    rep.note("phase_seconds", json!({"constructors": t_ctor, "recursion_probe": t_rec, "total": t0.elapsed().as_secs_f64()}));
+
+    // floors: every decoder accepted some mutated inputs and rejected others
+    let out = rep.hist.get("decoder_x_mutation").cloned().unwrap_or_default();
+    for d in DECODERS {
+        let ok_mut: u64 = out.iter().filter(|(k, _)| k.starts_with(&format!("{d}|")) && k.ends_with("|ok") && !k.contains("|none|")).map(|(_, v)| *v).sum();
+        let err: u64 = out.iter().filter(|(k, _)| k.starts_with(&format!("{d}|")) && k.ends_with("|err")).map(|(_, v)| *v).sum();
+        rep.floor(ok_mut >= 5, &format!("decoder-{d}-accepts-some-mutated-inputs"));
+        rep.floor(err >= 5, &format!("decoder-{d}-rejects-some-inputs"));
+        rep.floor(rep.get_count("valid_seeds", d) >= 4, &format!("decoder-{d}-has-valid-seeds"));
+    }
+    for m in MUTATIONS {
+        let n: u64 = rep.hist.get("mutation").map(|h| h.iter().filter(|(k, _)| k.starts_with(&format!("{m}|"))).map(|(_, v)| *v).sum()).unwrap_or(0);
+        rep.floor(n >= 100, &format!("mutation-{m}-applied"));
+    }
+    rep.floor(rep.hist.get("verify_on_decoded").map(|h| h.len()).unwrap_or(0) >= 5, "verify-called-on-decoded-statements");
+    rep.floor(rep.get_count("constructor", "StackOutputs::new") >= 100, "constructor-grid");
+    rep
+}
+
+pub fn replay(v: &Value, rep: &mut Report) {
+    match v.get("kind").and_then(|k| k.as_str()).unwrap_or("") {
+        "bytes" => {
+            let dec = v.get("decoder").and_then(|d| d.as_str()).unwrap_or("");
+            let name = match DECODERS.iter().find(|d| **d == dec) {
+                Some(d) => *d,
+                None => return,
+            };
+            let bytes = unhex(v.get("hex").and_then(|h| h.as_str()).unwrap_or(""));
+            let mut budget = Budget::new(10);
+            evaluate(name, "replay", &bytes, &mut budget, rep);
+        }
+        // a crash artifact of the fuzz lane: first byte may be the decoder selector of the target
+        "fuzz-artifact" => {
+            let path = v.get("path").and_then(|p| p.as_str()).unwrap_or("");
+            let bytes = std::fs::read(path).unwrap_or_default();
+            let mut budget = Budget::new(10);
+            for d in DECODERS {
+                evaluate(d, "replay", &bytes, &mut budget, rep);
+                if bytes.len() > 1 {
+                    evaluate(d, "replay", &bytes[1..], &mut budget, rep);
+                }
+            }
+        }
+        "constructor" => constructor_checks(rep),
+        "nest" => {
+            let depth = v.get("depth").and_then(|d| d.as_u64()).unwrap_or(1) as usize;
+            rep.eval("recursion|replay");
+            if child_crashes(depth) == Some(true) {
+                rep.violation("abort/ProgramAst/stack-overflow-nested-body", format!("{depth} nested bodies overflow an 8 MiB stack in ProgramAst::from_bytes"), v.clone());
+            }
+        }
+        _ => {}
+    }
+}
+
+#[allow(dead_code)]
+fn _keep(_: &str) {
+    let _ = env_case;
 }
